@@ -1,5 +1,6 @@
 import QuaiVerif.Model.Etx
 import QuaiVerif.Model.Value
+import QuaiVerif.Model.Create
 /- Line-protocol front end of the ETX origin model (area `evm`). -/
 namespace QuaiVerif.Etx
 
@@ -94,6 +95,18 @@ def step (u : Unit) (ws : List String) : Unit × String :=
           | _ => "bad-op"
         | [] => "bad-op"
       | _, _, _ => "bad-op")
+  | "create" :: rest =>
+    (u, match kvNat rest "balance", kvNat rest "endow", kvBool rest "emit", kvNat rest "ev", kv rest "ending" with
+      | some bal, some endow, some emit, some ev, some ending =>
+        let e : Option Create.Ending := match ending with
+          | "code" => some .code | "ef" => some .ef | "oversize" => some .oversize | "revert" => some .revert
+          | "invalid" => some .invalid | "stop" => some .stop | _ => none
+        match e with
+        | some e =>
+          let (s, ok) := Create.create ⟨bal, 0, false, []⟩ endow ev emit e
+          s!"ok={if ok then 1 else 0} debit={bal - s.creator} created={s.created} etxs={s.etxs}"
+        | none => "bad-op"
+      | _, _, _, _, _ => "bad-op")
   | _ => (u, "bad-op")
 
 end QuaiVerif.Etx
